@@ -254,7 +254,18 @@ class LsSpec(netx.Spec):
 def explore_instance(job, part, max_states=None):
     """job = dict(spec, algo, params, props, unit_menu?)."""
     spec, algo, params, props = job["spec"], job["algo"], job["params"], job["props"]
-    world, shared, _ = build_world(spec, algo, params, tuple(job.get("unit_menu", (0.0, 0.999999))))
+    try:
+        world, shared, _ = build_world(spec, algo, params, tuple(job.get("unit_menu", (0.0, 0.999999))))
+    except Exception as e:  # the computations cannot even be built: nothing will ever finish / select a value
+        import traceback
+
+        where = [f"{f.filename.split('/')[-1]}:{f.lineno}:{f.name}" for f in traceback.extract_tb(e.__traceback__)[-2:]]
+        if not any("pydcop" in f.filename for f in traceback.extract_tb(e.__traceback__)[-2:]):
+            raise
+        part.count("evaluations")
+        for p in sorted(set(props) & {"C07", "C10"}):
+            part.violation(f"{p}|{algo}|build-raised|{type(e).__name__}|{netx.site(where)}", f"{algo} {params} on {spec}: building the computations raised {type(e).__name__}: {e} at {where}", {"job": job, "history": []})
+        return
     ls = LsSpec(spec, algo, params, props)
     ex = netx.Explorer(ls, shared=shared, max_states=max_states, schedule=job.get("schedule", "all"))
 
